@@ -274,6 +274,56 @@ fn urdf_no_limit(rep: &mut Report, base_case: u64) {
     }
 }
 
+/// The constraint set as a robot reports it (`Kinematics::constraints()`), for 6-DOF and 5-DOF robots, bare and behind a tool:
+/// what it accepts must be arc membership on the limits *it reports*.
+fn robot_readback(rep: &mut Report, base_case: u64) {
+    use rs_opw_kinematics::kinematic_traits::Kinematics;
+    let mut case = base_case;
+    for dof in [6i8, 5] {
+        for (jf, jt) in [(-40.0f64, 100.0f64), (170.0, -170.0), (-10.0, 50.0), (20.0, 20.0)] {
+            for wrapped in [false, true] {
+                case += 1;
+                let mut from = [-2.0, -1.5, -2.5, -3.0, -2.0, 0.0];
+                let mut to = [2.0, 1.5, 2.5, 3.0, 2.0, 0.0];
+                from[5] = jf.to_radians();
+                to[5] = jt.to_radians();
+                let mut p = crate::common::robots::make(0.1, -0.1, 0.0, [0.6, 0.7, 0.75, 0.09], [1; 6], [0.0; 6], 6);
+                p.dof = dof;
+                let core = rs_opw_kinematics::kinematics_impl::OPWKinematics::new_with_constraints(p, Constraints::new(from, to, 0.3));
+                let robot: std::sync::Arc<dyn Kinematics> = if wrapped {
+                    std::sync::Arc::new(rs_opw_kinematics::tool::Tool { robot: std::sync::Arc::new(core), tool: nalgebra::Isometry3::translation(0.0, 0.0, 0.1) })
+                } else {
+                    std::sync::Arc::new(core)
+                };
+                rep.states += 1;
+                let Some(reported) = robot.constraints().as_ref().copied() else {
+                    rep.fail("C07/robot-readback/no-constraints".to_string(), case, json!({"kind": "readback"}), format!("a dof-{dof} robot built with limits reports none"));
+                    continue;
+                };
+                for joint in [5usize, 3] {
+                    for deg in (-144..=144).map(|k| k as f64 * 5.0 + 0.37) {
+                        let mut q = [0.1, 0.2, -0.3, 0.4, 0.5, 0.0];
+                        q[joint] = deg.to_radians();
+                        rep.transitions += 1;
+                        let got = reported.compliant(&q);
+                        let want = arc_member6(&reported.from, &reported.to, &q, 1e-9);
+                        if (want == ArcVerdict::Inside && !got) || (want == ArcVerdict::Outside && got) {
+                            rep.fail(
+                                format!("C07/robot-readback/dof{dof}{}", if wrapped { "/behind-tool" } else { "" }),
+                                case,
+                                json!({"kind": "readback"}),
+                                format!("limits reported by the robot: J{} from {} to {}; angle {deg} deg: compliant = {got}, arc membership = {want:?}", joint + 1, reported.from[joint], reported.to[joint]),
+                            );
+                            break;
+                        }
+                    }
+                }
+                rep.sig(format!("readback:dof{dof}:{}", if wrapped { "tool" } else { "bare" }));
+            }
+        }
+    }
+}
+
 /// Threshold sweep: ranges that are almost empty, almost a full turn, or written with zeros of either sign.
 fn special_ranges(rep: &mut Report, base_case: u64) {
     let ctors = [Ctor::Radians, Ctor::Degrees, Ctor::UpdateRange];
@@ -366,12 +416,13 @@ pub fn run(ctx: &Ctx) -> Report {
     op_sequences(&mut rep);
     special_ranges(&mut rep, n + 10_000);
     urdf_no_limit(&mut rep, n + 5_000_000);
+    robot_readback(&mut rep, n + 6_000_000);
     rep.traces_validated = rep.transitions;
     rep.rule = format!(
         "(from,to) on the {step}-degree lattice of [-720,720]^2 x angle on the same lattice (a third shifted by one of sqrt2*1e-3, -e*1e-3, pi*1e-2, -phi*1e-2, gamma*1e-4 rad) x \
          constructors {{new, from_degrees, update_range}} x neighbours {{wide range, from==to}}; oracle = arc membership by definition; \
          lattice points on an arc end are skipped_boundary except the exactly decidable family from=0; reversed ranges with from = to (mod 360) \
-         are ambiguous by the statement and skipped; plus centre-accepted, filter==pointwise, and constructor/update_range sequences to depth 3; \
+         are ambiguous by the statement and skipped; plus centre-accepted, filter==pointwise, and constructor/update_range sequences to depth 3; the constraint set read back from 6-DOF and 5-DOF robots (bare, behind a tool) judged on the limits it reports; \
          signature = (range class, verdict, constructor)"
     );
     rep.set("axes", json!({"step_deg": step, "from_values": span, "to_values": span, "angles": span, "constructors": 3}));
@@ -381,6 +432,11 @@ pub fn run(ctx: &Ctx) -> Report {
 
 pub fn replay(case: &Value) -> Vec<String> {
     match case["kind"].as_str().unwrap_or("") {
+        "readback" => {
+            let mut rep = Report::new();
+            robot_readback(&mut rep, 0);
+            rep.fails.iter().map(|f| format!("{}: {}", f.key, f.detail)).collect()
+        }
         "urdf" => {
             // the sweep is small and deterministic: re-run it and report what concerns this document
             let mut rep = Report::new();
